@@ -196,6 +196,16 @@ def write_packed_refs(repo, git_dir, rng, loose=0.0, disk_repo=None):
             lines.append("^" + packed_sha)
         else:
             lines.append("%s %s" % (packed_sha, ref))
+    # (every third file was written by a tool that does not sort: the header does not claim it, the entries - a ref
+    # line with its optional '^' line - come in another order, refs of different namespaces mixed)
+    if int(sha1(git_dir.encode()).hexdigest(), 16) % 3 == 0 or len(lines) % 3 == 0:
+        entries, k = [], 1
+        while k < len(lines):
+            n = 2 if k + 1 < len(lines) and lines[k + 1].startswith("^") else 1
+            entries.append(lines[k:k + n])
+            k += n
+        entries.sort(key=lambda e: sha1(e[0].encode()).hexdigest())
+        lines = ["# pack-refs with: peeled fully-peeled "] + [x for e in entries for x in e]
     with open(os.path.join(git_dir, "packed-refs"), "w") as f:
         f.write("\n".join(lines) + "\n")
     if loose:
